@@ -1,11 +1,67 @@
 package c43
 
 import (
+	"encoding/json"
+	"fmt"
+
+	ethtypes "github.com/ethereum/go-ethereum/core/types"
+	"github.com/ontio/ontology/core/store/ledgerstore"
+
 	"verif/harness/hx"
 )
 
 func init() { hx.Register("C43", Run) }
 
+func dispatch(c *hx.Ctx, in Input) {
+	switch in.Kind {
+	case "logs":
+		scenLogs(c, in)
+	case "keys":
+		scenKeys(c, in)
+	case "comp":
+		scenComp(c, in)
+	case "index":
+		scenIndex(c, in)
+	case "chain":
+		scenChain(c, in)
+	default:
+		scenHist(c, in)
+	}
+}
+
 func Run(c *hx.Ctx) {
 	c.CoqModule("Corr.C43")
+	if ledgerstore.BloomBitsBlocks != secSize || ethtypes.BloomBitLength != 2048 {
+		// the harness-side oracle is written for these sizes; the Coq side takes them from Gen/BloomConsts.v
+		c.Fail("index:section-size-changed", "BloomBitsBlocks/BloomBitLength differ from the values the oracle was written for", nil,
+			fmt.Sprintf("%d/%d", ledgerstore.BloomBitsBlocks, ethtypes.BloomBitLength), "4096/2048")
+		return
+	}
+	var in Input
+	if c.ReplayInput(&in) {
+		dispatch(c, in)
+		return
+	}
+	for _, raw := range c.CorpusInputs() {
+		var ci Input
+		if json.Unmarshal(raw, &ci) == nil && ci.Kind != "" {
+			dispatch(c, ci)
+		}
+	}
+	many := func(kind string, n, size int) {
+		for i := 0; i < n; i++ {
+			dispatch(c, Input{Kind: kind, Seed: c.Rng.Int63(), Size: size})
+		}
+	}
+	many("logs", c.N(150, 1500), 0)
+	many("keys", c.N(40, 300), 0)
+	many("comp", c.N(120, 1500), 0)
+	many("index", c.N(2, 8), c.N(30, 60))
+	many("hist-mainnet-genesis", c.N(2, 6), 0)
+	many("hist-unaligned", c.N(3, 8), 0)
+	many("hist-gap", c.N(2, 5), 0)
+	many("hist-genesis", c.N(1, 2), c.N(1, 2))
+	many("hist-mainnet-fork", c.N(1, 3), 0)
+	many("hist-ceil", c.N(1, 3), c.N(1, 2))
+	many("chain", c.N(1, 2), c.N(1, 2))
 }
